@@ -321,7 +321,7 @@ pub enum Search<T> {
 pub fn search<S, F>(ctx: &mut Ctx, salt: u64, cases: u32, strategy: S, test: F) -> Search<S::Value>
 where
     S: Strategy,
-    S::Value: Clone + std::fmt::Debug,
+    S::Value: std::fmt::Debug,
     F: Fn(&mut Ctx, &S::Value) -> Result<(), String>,
 {
     let config = Config {
